@@ -12,6 +12,7 @@ import (
 	"sort"
 	"strings"
 	"sync"
+	"time"
 
 	"github.com/spf13/viper"
 
@@ -366,7 +367,7 @@ func runPoolCase(idx int, c PoolCase) (string, []MonitorHit, map[string]int, boo
 // ---------------------------------------------------------------- gemmill/mempool
 
 type MemOp struct {
-	Op  string `json:"op"` // submit reap commit
+	Op  string `json:"op"` // submit reap commit race (N goroutines hand in transaction ID at the same moment)
 	ID  int    `json:"id,omitempty"`
 	N   int    `json:"n,omitempty"`
 	IDs []int  `json:"ids,omitempty"`
@@ -388,7 +389,12 @@ func genMemCase(r *Rng, directed int) MemCase {
 			} else {
 				fresh++
 			}
-			c.Ops = append(c.Ops, MemOp{Op: "submit", ID: id})
+			if r.Chance(1, 5) {
+				// the same bytes from several sides at once (RPC and gossiping peers, one goroutine each)
+				c.Ops = append(c.Ops, MemOp{Op: "race", ID: id, N: 2 + r.Intn(3)})
+			} else {
+				c.Ops = append(c.Ops, MemOp{Op: "submit", ID: id})
+			}
 		case roll < 75:
 			c.Ops = append(c.Ops, MemOp{Op: "reap", N: []int{-1, 0, 1, 2, 5, 100}[r.Intn(6)]})
 		default:
@@ -404,6 +410,34 @@ func runMemCase(idx int, c MemCase) (string, []MonitorHit, map[string]int, bool)
 	dist := map[string]int{}
 	hit := func(sig, what string) { hits = append(hits, MonitorHit{Case: idx, Sig: sig, What: what}) }
 	mp := mempool.NewMempool(viper.New())
+	// the application's CheckTx, registered as a filter: during a "race" it holds every submitter
+	// until all of them are inside ReceiveTx (or 200 ms have passed), so that the schedule in which
+	// they all pass the first duplicate lookup before any of them records the transaction is the
+	// one that runs
+	var gate struct {
+		sync.Mutex
+		want, have int
+		open       chan struct{}
+	}
+	mp.RegisterFilter(types.NewTxpoolFilter(func([]byte) (bool, error) {
+		gate.Lock()
+		if gate.want == 0 {
+			gate.Unlock()
+			return true, nil
+		}
+		gate.have++
+		ch := gate.open
+		if gate.have == gate.want {
+			close(ch)
+			gate.want = 0
+		}
+		gate.Unlock()
+		select {
+		case <-ch:
+		case <-time.After(200 * time.Millisecond):
+		}
+		return true, nil
+	}))
 	raw := func(id int) types.Tx { return types.Tx(fmt.Sprintf("tx-%d", id)) }
 	idOf := func(t types.Tx) int { var k int; fmt.Sscanf(string(t), "tx-%d", &k); return k }
 	committed := map[int]bool{}
@@ -415,6 +449,35 @@ func runMemCase(idx int, c MemCase) (string, []MonitorHit, map[string]int, bool)
 		case "submit":
 			err := mp.ReceiveTx(raw(op.ID))
 			ops = append(ops, sxL("0", sxZ(int64(op.ID)), sxBool(err == nil)))
+		case "race":
+			gate.Lock()
+			gate.want, gate.have, gate.open = op.N, 0, make(chan struct{})
+			gate.Unlock()
+			var wg sync.WaitGroup
+			var amtx sync.Mutex
+			accepted := 0
+			for g := 0; g < op.N; g++ {
+				wg.Add(1)
+				go func() {
+					defer wg.Done()
+					if mp.ReceiveTx(raw(op.ID)) == nil {
+						amtx.Lock()
+						accepted++
+						amtx.Unlock()
+					}
+				}()
+			}
+			wg.Wait()
+			gate.Lock()
+			gate.want = 0
+			gate.Unlock()
+			if accepted > 1 {
+				hit("duplicate-accepted", fmt.Sprintf("%d of %d simultaneous submissions of the same transaction were accepted", accepted, op.N))
+			}
+			// to the model: the same submissions one after the other, the accepted ones first
+			for g := 0; g < op.N; g++ {
+				ops = append(ops, sxL("0", sxZ(int64(op.ID)), sxBool(g < accepted)))
+			}
 		case "reap":
 			txs := mp.Reap(op.N)
 			ids := make([]string, len(txs))
@@ -560,7 +623,7 @@ func init() {
 	}
 	engines["mempool"] = func(args []string) error {
 		return runGenericEngine("mempool",
-			"case = operation history on gemmill/mempool: submissions (one in three a resubmission of an earlier transaction), reaps with limits -1, 0, 1, 2, 5, 100, commits of the first 0..3 transactions; distinct = case line; non-trivial = a non-empty block was committed",
+			"case = operation history on gemmill/mempool: submissions (one in three a resubmission of an earlier transaction; one in five handed in by 2..4 goroutines at the same moment, all held inside the registered CheckTx filter until every one of them has passed the first duplicate lookup), reaps with limits -1, 0, 1, 2, 5, 100, commits of the first 0..3 transactions; distinct = case line; non-trivial = a non-empty block was committed",
 			args,
 			func(r *Rng, i int) interface{} { return genMemCase(r, i) },
 			func(f string) (interface{}, error) {
